@@ -2,11 +2,13 @@
 C20 — compiled (vp_compile) and dataclass payloads behave like their plain interpreted definition.
 
 Link to the code:
-  * translator tools/gen_c20.py regenerates lean/Ipv8/C20/Gen.lean on every run: the registry of formats, the literal
-    table of payload_dataclass.type_map (Python AST) and every shipped VariablePayload definition;
+  * translator tools/gen_c20.py regenerates lean/Ipv8/C20/Gen.lean on every run: the registry of formats, type_map as
+    a finite table read off the live function, the guard of DataClassPayload.__new__ (AST, probe as fallback) and every
+    shipped VariablePayload definition;
   * correspondence: random payload definitions (1..12 fields over all registered formats incl. `bits` in the middle,
-    nested payloads and payload lists in mixed forms, defaults of every JSON-like type, fix_pack_/fix_unpack_ hooks,
-    user __init__ with/without **kwargs) are built THREE ways with the real code (plain VariablePayload, vp_compile,
+    nested payloads and payload lists in mixed forms, defaults of many Python types incl. objects without an evaluable
+    repr, fix_pack_/fix_unpack_ hooks also on container fields, user __init__ with/without **kwargs or keyword-only
+    defaults, old-style superclass) are built THREE ways with the real code (plain VariablePayload, vp_compile,
     @dataclass DataClassPayload); constructor binding, to_pack_list, from_unpack_list and the structure of the source
     text that the three _compile_* generators emit are compared with the Lean model (driver drv_c20, values are free
     terms: atoms and hook applications, evaluated here with the real hooks);
@@ -62,8 +64,10 @@ ASSUMPTIONS = [
     "values handed to from_unpack_list by the Serializer are never None (the compiled form guards hooks with "
     "`None if x is None`); the guard itself is modelled and exercised",
     "keyword arguments have distinct keys (Python dict)",
-    "dataclass fields are plain (no default_factory / kw_only / init=False / InitVar): those are reported as a known "
-    "finding, not assumed away",
+    "dataclass fields: default_factory and kw_only-with-a-required-field are exercised and reported as a known finding "
+    "(refused loudly); init=False, InitVar and __post_init__ are NOT exercised: the generated __init__ replaces the "
+    "dataclass one, so they are silently ignored - constructor-body behaviour, outside the claim like any user __init__ "
+    "body",
 ]
 
 RESERVED = set(keyword.kwlist) | {"self", "cls", "Payload", "None", "True", "False", "names", "format_list", "msg_id",
@@ -225,7 +229,11 @@ class Opaque:
 
 OPAQUES = [Opaque(i) for i in range(3)]
 
-HOOKS = {"tuple": (_ident, tuple), "set": (_ident, set), "int": (_inc, _dec), "bytes": (_unhex, _hex), "str": (_rev, _rev), "bool": (_neg, _neg), "other": (_wrap, _unwrap)}
+def _sorted_tuple(v):
+    return tuple(sorted(v, key=repr))
+
+
+HOOKS = {"tuple": (_ident, tuple), "set": (_ident, set), "sortedtuple": (_ident, _sorted_tuple), "int": (_inc, _dec), "bytes": (_unhex, _hex), "str": (_rev, _rev), "bool": (_neg, _neg), "other": (_wrap, _unwrap)}
 
 NATIVE = {"?": "bool", "q": "int", "d": "float", "varlenH": "bytes", "varlenHutf8": "str",
           "arrayH-?": "co:bool", "arrayH-q": "co:int", "arrayH-d": "co:float"}
@@ -309,7 +317,7 @@ def gen_defn(rng, formats, depth=0, max_fields=12) -> Defn:
                 d.fields.append(Field(kind, None, sub, [pool[pi]], f"se:N{sub.uid}"))
             else:
                 ck, ann = rng.choice([("list", "plain"), ("list", "plain"), ("tuple", "plain"), ("tuple", "ellipsis"),
-                                      ("tuple", "pair"), ("list", "literal")])
+                                      ("list", "literal")])
                 ty = f"lit:N{sub.uid}" if ann == "literal" else {"list": "cs:", "tuple": "cot:se:"}[ck] + f"N{sub.uid}"
                 d.fields.append(Field(kind, None, sub, [pool[pi]], ty, ck, ann))
             pi += 1
@@ -323,8 +331,7 @@ def gen_defn(rng, formats, depth=0, max_fields=12) -> Defn:
             ty = NATIVE[fmt] if fmt in NATIVE and rng.random() < 0.6 else "tv:" + fmt
             ck, ann = "list", "plain"
             if ty.startswith("co:"):
-                ck, ann = rng.choice([("list", "plain"), ("tuple", "plain"), ("tuple", "ellipsis"), ("tuple", "pair"),
-                                      ("set", "plain")])
+                ck, ann = rng.choice([("list", "plain"), ("tuple", "plain"), ("tuple", "ellipsis"), ("set", "plain")])
                 ty = {"list": "co:", "tuple": "cot:", "set": "cos:"}[ck] + ty[3:]
             d.fields.append(Field("prim", fmt, None, [pool[pi]], ty, ck, ann))
             pi += 1
@@ -343,6 +350,10 @@ def gen_defn(rng, formats, depth=0, max_fields=12) -> Defn:
                     d.fu[n] = k
     # a tuple[...] / set[...] annotation says the field holds that container: the plain definition of such a field is the
     # array / payload-list format plus an unpack rule restoring the container (the dataclass form has to derive it)
+    # a user's own unpack rule on an array field - possibly the builtin tuple / set itself, whatever the annotation says
+    for f in d.fields:
+        if f.kind == "prim" and f.ty.startswith(("co:", "cot:", "cos:")) and rng.random() < 0.3:
+            d.fu[f.names[0]] = rng.choice(["tuple", "set", "sortedtuple"])
     for f in d.fields:
         if f.ck in ("tuple", "set") and f.names[0] not in d.fu:
             d.fu[f.names[0]] = f.ck
@@ -421,7 +432,8 @@ def namespace_for(d: Defn, form: str, with_init=True):
     for n, k in d.fu.items():
         if form == "D" and n in d.derived:
             continue        # convert_to_payload has to derive this one from the tuple[...] / set[...] annotation
-        ns["fix_unpack_" + n] = _mk_hook_unpack(HOOKS[k][1])
+        ns["fix_unpack_" + n] = staticmethod(HOOKS[k][1]) if k in ("tuple", "set") and n not in d.derived \
+            else _mk_hook_unpack(HOOKS[k][1])
     if with_init and d.user_init is not None:
         plist = [f"{n}=_D[{n!r}]" if n in d.defaults else n for n in d.names]
         if d.kwonly:
@@ -754,7 +766,7 @@ def gen_structure(cls, d: Defn):
     # init
     a = fi.args
     if a.vararg or a.kwarg or a.kwonlyargs or a.posonlyargs:
-        return "init ?signature"
+        return "init ¿signature"
     params = [x.arg for x in a.args][1:]
     real_defaults = cls.__init__.__defaults__ or ()
     nd = len(real_defaults)
@@ -778,9 +790,9 @@ def gen_structure(cls, d: Defn):
                 and isinstance(st.value, ast.Name)):
             sets.append(f"{st.targets[0].attr}={st.value.id}")
         else:
-            sets.append("?" + ast.unparse(st).replace(" ", ""))
+            sets.append("¿" + ast.unparse(st).replace(" ", ""))
     if not ok_first:
-        sets.insert(0, "?no-Payload-init")
+        sets.insert(0, "¿no-Payload-init")
     s_init = ",".join(ps) + ";" + ",".join(sets)
     # from_unpack_list
     up = [x.arg for x in fu.args.args][1:]
@@ -792,16 +804,16 @@ def gen_structure(cls, d: Defn):
             if isinstance(x, ast.Name):
                 ua.append(x.id)
             elif isinstance(x, ast.IfExp):
-                n = x.test.left.id if isinstance(x.test, ast.Compare) and isinstance(x.test.left, ast.Name) else "?"
+                n = x.test.left.id if isinstance(x.test, ast.Compare) and isinstance(x.test.left, ast.Name) else "¿"
                 want = (f"None if {n} is None else cls.fix_unpack_{n}({n})",
                         f"cls.fix_unpack_{n}({n}) if {n} is not None else None")
-                if n == "?" and isinstance(x.test, ast.Compare) and isinstance(x.test.left, ast.Name):
+                if n == "¿" and isinstance(x.test, ast.Compare) and isinstance(x.test.left, ast.Name):
                     n = x.test.left.id
-                ua.append("G:" + n if ast.unparse(x) in want else "?" + ast.unparse(x).replace(" ", ""))
+                ua.append("G:" + n if ast.unparse(x) in want else "¿" + ast.unparse(x).replace(" ", ""))
             else:
-                ua.append("?" + ast.unparse(x).replace(" ", ""))
+                ua.append("¿" + ast.unparse(x).replace(" ", ""))
     else:
-        ua.append("?body")
+        ua.append("¿body")
     s_un = ",".join(up) + ";" + ",".join(ua)
     # to_pack_list
     ents = []
@@ -809,7 +821,7 @@ def gen_structure(cls, d: Defn):
     if isinstance(ret, ast.Return) and isinstance(ret.value, ast.List) and not fp.args.args[1:]:
         for t in ret.value.elts:
             if not (isinstance(t, ast.Tuple) and t.elts and isinstance(t.elts[0], ast.Constant)):
-                ents.append("?entry")
+                ents.append("¿entry")
                 continue
             parts = []
             for x in t.elts[1:]:
@@ -820,10 +832,10 @@ def gen_structure(cls, d: Defn):
                         and u == f"self.fix_pack_{x.args[0].attr}(self.{x.args[0].attr})":
                     parts.append("H:" + x.args[0].attr)
                 else:
-                    parts.append("?" + u.replace(" ", ""))
+                    parts.append("¿" + u.replace(" ", ""))
             ents.append(str(t.elts[0].value) + ":" + ",".join(parts))
     else:
-        ents.append("?body")
+        ents.append("¿body")
     return f"ok init {s_init} unpack {s_un} pack {'|'.join(ents)}"
 
 
@@ -1077,7 +1089,7 @@ class Run:
             if gs is None:
                 ctx.count("gen:text-unavailable")
                 continue
-            if "?" in gs:
+            if "¿" in gs:
                 # the emitted text has a shape this parser does not know (restyled generator): behaviour is still
                 # compared below, the structural comparison is skipped rather than reported
                 ctx.count("gen:shape-not-recognised")
@@ -1179,6 +1191,10 @@ class Run:
                 if rb[0] == "ok":
                     rd = attempt(lambda: self.ser.unpack_serializable(cls, b"\xaa\xbb" + rb[1], 2))
                     decs[form] = ("ok", (canon(rd[1][0]), rd[1][1])) if rd[0] == "ok" else rd
+                    if rd[0] == "ok" and type(rd[1][0]) is not cls:
+                        ctx.oracle_fail("unpack_serializable:decoded-class", f"decoding with the {form} form of a class "
+                                        f"returns an instance of another class ({type(rd[1][0]).__name__})",
+                                        {**rep_d, "form": form})
                     if rd[0] == "ok" and any(v is None for v in vars(rd[1][0]).values()):
                         ctx.count("decode:none-value-seen")
                 else:
@@ -1202,8 +1218,21 @@ class Run:
                 fuls[form] = realf
                 ctx.count(f"unpack-outcome:{form}:{raw_mode}:{realf[0] if realf[0] == 'ok' else realf[1]}")
                 line = " ".join(["unpack", form] + toks[form] + ["[" + ",".join(atoms) + "]", "[]"])
-                self.ask(line, TermEval(d, uenv).attrs, realf, f"from_unpack_list of form {form}",
-                         {**rep_d, "form": form, "raw": atoms})
+                unguarded = None
+                if raw_mode == "none" and form != "I" and len(atoms) == len(d.names) and \
+                        any(a == "N" and n in d.fu for a, n in zip(atoms, d.names)):
+                    # what a generated from_unpack_list WITHOUT the guard would do: every hook applied, also to None
+                    ru = attempt(lambda: cls(*[HOOKS[d.fu[n]][1](uenv[a]) if n in d.fu else uenv[a]
+                                               for a, n in zip(atoms, d.names)]))
+                    unguarded = ("ok", attrs_of(ru[1])) if ru[0] == "ok" else ("err",)
+                if unguarded is not None and (realf if realf[0] == "ok" else ("err",)) == unguarded \
+                        and unguarded != ("ok", tuple((n, canon(uenv[a])) for a, n in zip(atoms, d.names))):
+                    # with a None entry the model predicts the compiled GUARD (None passes, no hook call); a generated
+                    # from_unpack_list without the guard behaves exactly like the interpreted form: neutral, not compared
+                    ctx.count("unpack:none-entry-treated-like-interpreted")
+                else:
+                    self.ask(line, TermEval(d, uenv).attrs, realf, f"from_unpack_list of form {form}",
+                             {**rep_d, "form": form, "raw": atoms})
                 ctx.case(("unpack", d.shape(), form, raw_mode), nontrivial)
             extra = {"values": {k: repr(v)[:80] for k, v in api.items()}}
             self.compare_forms("to_pack_list:pack-list", pls, rep_d, extra, "to_pack_list")
@@ -1591,6 +1620,10 @@ def against_reference(run: "Run", sig: str, cls, ref, d: Defn, rep: dict, expect
         db = attempt(lambda: run.ser.unpack_serializable(ref, b"\x01" + bb[1], 1))
         ca = ("ok", attrs_of(da[1][0]), da[1][1]) if da[0] == "ok" else ("err",)
         cb = ("ok", attrs_of(db[1][0]), db[1][1]) if db[0] == "ok" else ("err",)
+        if da[0] == "ok" and (type(da[1][0]) is not cls or getattr(da[1][0], "msg_id", None) != expect_msg_id):
+            ctx.oracle_fail(f"{sig}:decoded-class", f"decoding with class {cls.__name__} (msg_id {expect_msg_id}) returns a "
+                            f"{type(da[1][0]).__name__} with msg_id {getattr(da[1][0], 'msg_id', None)}",
+                            {**rep, "stage": "inheritance"})
         if ca != cb:
             ctx.oracle_fail(f"{sig}:decoded-fields", f"decoding the plain definition's bytes gives {str(da if da[0] == 'err' else ca)[:200]} "
                             f"but the plain definition decodes {str(cb)[:200]}", {**rep, "stage": "inheritance",
@@ -1609,35 +1642,43 @@ def visible_converters(cls, user_hooks=()):
         if n in user_hooks:
             continue
         h = getattr(cls, "fix_unpack_" + n, None)
-        if h is tuple or h is set:
-            out.append(f"{n}={h.__name__}(x)")
+        kind = {"_to_tuple": "tuple", "_to_set": "set"}.get(getattr(h, "__name__", ""))
+        if kind:
+            out.append(f"{n}={kind}(x)")
     return ",".join(out)
 
 
 def reannotate(run: "Run", n_cases: int):
     """a dataclass payload that declares a parent's container field again with another container (tuple -> list / set,
-    ...), in both instantiation orders: every class must decode like the plain definition of ITS OWN annotations"""
+    ...), over two or three levels and in several instantiation orders: every class must decode like the plain
+    definition of ITS OWN annotations"""
     from ipv8.messaging.lazy_payload import VariablePayload
     from ipv8.messaging.payload_dataclass import DataClassPayload
     ctx, rng = run.ctx, run.ctx.rng
     kinds = {"list": list, "tuple": tuple, "set": set}
+    pre = {"list": "co:", "tuple": "cot:", "set": "cos:"}
     for case in range(n_cases):
-        k1, k2 = rng.sample(["list", "tuple", "set"], 2)
+        levels = 3 if case % 3 == 2 else 2
+        ks = [rng.choice(["list", "tuple", "set"])]
+        while len(ks) < levels:
+            ks.append(rng.choice([k for k in ("list", "tuple", "set") if k != ks[-1]]))
         elem, fmt = rng.choice([(int, "arrayH-q"), (bool, "arrayH-?"), (float, "arrayH-d")])
-        order = ["parent-first", "child-first", "only-child", "parent-child-parent"][case % 4]
+        orders = {2: [[0, 1], [1, 0], [1], [0, 1, 0]], 3: [[0, 1, 2], [2, 1, 0], [2], [0, 2, 1], [1, 2]]}[levels]
+        evs = orders[(case // 3) % len(orders)]
         uid = next(_uid)
         extra = rng.random() < 0.5
-        par = dataclasses.make_dataclass(f"RP{uid}", [("a", int), ("t", kinds[k1][elem])], bases=(DataClassPayload,))
-        cfields = [("t", kinds[k2][elem])] + ([("z", int, dataclasses.field(default=4))] if extra else [])
-        chi = dataclasses.make_dataclass(f"RC{uid}", cfields, bases=(par,))
-        par.__module__ = chi.__module__ = generated_module()
-        classes = [par, chi]
+        classes = [dataclasses.make_dataclass(f"R{uid}_0", [("a", int), ("t", kinds[ks[0]][elem])], bases=(DataClassPayload,))]
+        for lv in range(1, levels):
+            cfields = [("t", kinds[ks[lv]][elem])] + ([("z", int, dataclasses.field(default=4))] if extra and lv == 1 else [])
+            classes.append(dataclasses.make_dataclass(f"R{uid}_{lv}", cfields, bases=(classes[-1],)))
+        for c in classes:
+            c.__module__ = generated_module()
 
         def plain(kind, with_z, name):
             d = Defn()
             d.uid = next(_uid)
             d.fields = [Field("prim", "q", None, ["a"], "int"),
-                        Field("prim", fmt, None, ["t"], {"list": "co:", "tuple": "cot:", "set": "cos:"}[kind] + elem.__name__, kind)]
+                        Field("prim", fmt, None, ["t"], pre[kind] + elem.__name__, kind)]
             if with_z:
                 d.fields.append(Field("prim", "q", None, ["z"], "int"))
                 d.defaults = {"z": 4}
@@ -1650,17 +1691,18 @@ def reannotate(run: "Run", n_cases: int):
             ns.update({"format_list": [f.fmt for f in d.fields], "names": list(d.names)})
             return d, type(name, (VariablePayload,), ns)
 
-        defs_refs = [plain(k1, False, f"RPR{uid}"), plain(k2, extra, f"RCR{uid}")]
-        evs = {"parent-first": [0, 1], "child-first": [1, 0], "only-child": [1], "parent-child-parent": [0, 1, 0]}[order]
-        ctx.count(f"reannotate:{k1}->{k2}:{order}")
-        rep = {"reannotate": {"parent": k1, "child": k2, "element": elem.__name__, "extra_field": extra, "order": order}}
+        defs_refs = [plain(ks[lv], extra and lv >= 1, f"RR{uid}_{lv}") for lv in range(levels)]
+        ctx.count(f"reannotate:{'->'.join(ks)}:order={''.join(map(str, evs))}")
+        rep = {"reannotate": {"kinds": ks, "element": elem.__name__, "extra_field": extra, "events": evs}}
         for lv in evs:
-            vals = [1, kinds[[k1, k2][lv]]([elem(1), elem(0)])] + ([9] if (lv == 1 and extra) else [])
+            vals = [1, kinds[ks[lv]]([elem(1), elem(0)])] + ([9] if (lv >= 1 and extra) else [])
             r = attempt(lambda: classes[lv](*vals))
             if r[0] != "ok":
                 ctx.oracle_fail("dataclass.reannotate:binding", f"instantiating class {lv} raises {r[1]}", {**rep, "stage": "inheritance"})
-        tys = f"[int,{defs_refs[0][0].fields[1].ty}]/[{defs_refs[1][0].fields[1].ty}" + (",int]" if extra else "]")
-        nms = "[a,t]/[t" + (",z]" if extra else "]")
+        tys = "/".join([f"[int,{pre[ks[0]]}{elem.__name__}]"] + [
+            f"[{pre[ks[lv]]}{elem.__name__}" + (",int]" if extra and lv == 1 else "]") for lv in range(1, levels)])
+        nms = "/".join(["[a,t]"] + ["[t" + (",z]" if extra and lv == 1 else "]") for lv in range(1, levels)])
+
         def effective(lv):
             """the container converter that decoding with class lv really applies (behavioural probe; classes that no
             instantiation has converted are not probed: calling them would convert them)"""
@@ -1672,13 +1714,13 @@ def reannotate(run: "Run", n_cases: int):
             return "" if k == "list" else f"t={k}(x)"
 
         real = "ok " + " ".join(f"{lv}:" + ",".join(canon_fmt(x) for x in classes[lv].format_list) + ";"
-                                + ",".join(classes[lv].names) + ";" + effective(lv) for lv in range(2))
+                                + ",".join(classes[lv].names) + ";" + effective(lv) for lv in range(levels))
         run.ask(f"hier {tys} {nms} [{','.join(map(str, evs))}]", lambda rp: rp, real,
                 "class-level data and container converters after re-annotating a field", rep)
         for lv in sorted(set(evs)):
             against_reference(run, "dataclass.reannotate", classes[lv], defs_refs[lv][1], defs_refs[lv][0],
                               {**rep, "class": lv}, None)
-        ctx.case(("reannotate", k1, k2, order, extra), True)
+        ctx.case(("reannotate", tuple(ks), tuple(evs), extra), True)
     run.flush()
 
 
@@ -1843,7 +1885,7 @@ def inheritance(run: "Run", n_cases: int):
                       + (":inherited-user-init" if inherit_init and defs[0].defaults else ""))
             rep = {"vp_chain": {"definition": defn_replay(full), "cuts": cuts, "parent_form": pform, "child_form": cform,
                                 "msg_ids": [pid, cid]}}
-            hybrid = pform == "C" and cform == "I" and (cuts[1] > 0 or any(n in full.fp or n in full.fu for n in defs[1].names[ends[0]:]))
+            hybrid = pform == "C" and cform == "I"      # also with an unchanged field list: decoding yields the PARENT class
             sig = "vp_compile:uncompiled-subclass-of-compiled" if hybrid else "variablepayload.inherit"
             first = rng.choice([0, 1])
             for lv in ([0, 1] if first == 0 else [1, 0]):
@@ -1880,7 +1922,7 @@ def inheritance(run: "Run", n_cases: int):
                     against_reference(run, sig, [pcls, ccls][lv], refs[lv], defs[lv], {**rep, "class": lv}, [pid, cid][lv])
             if cform == "C":
                 gs = gen_structure(ccls, defs[1])
-                if gs is not None and "?" not in gs:
+                if gs is not None and "¿" not in gs:
                     run.ask(" ".join(["gen", "C"] + defn_tokens(defs[1], "C") + ["[]", "[]"]), lambda rp: rp, gs,
                             "generated code of a compiled subclass", rep)
     run.flush()
@@ -1894,8 +1936,27 @@ def dataclass_options(run: "Run", n: int):
     from ipv8.messaging.payload_dataclass import DataClassPayload
     ctx, rng = run.ctx, run.ctx.rng
     for i in range(n):
-        kind = ["default_factory", "kw_only"][i % 2]
+        kind = ["default_factory", "kw_only", "plain_kw_only_required"][i % 3]
         uid = next(_uid)
+        if kind == "plain_kw_only_required":
+            from ipv8.messaging.lazy_payload import vp_compile
+            env = {"_VP": VariablePayload}
+            exec("def __init__(self, *, a=1, b):\n    _VP.__init__(self, a, b)\n", env)
+            ns = {"format_list": ["q", "q"], "names": ["a", "b"], "__init__": env["__init__"]}
+            plain = type(f"OP{uid}", (VariablePayload,), ns)
+            rc = attempt(lambda: vp_compile(type(f"OC{uid}", (VariablePayload,), dict(ns))))
+            a = attempt(lambda: rc[1](b=7)) if rc[0] == "ok" else rc
+            b = attempt(lambda: plain(b=7))
+            ra = ("ok", attrs_of(a[1])) if a[0] == "ok" else a
+            rb = ("ok", attrs_of(b[1])) if b[0] == "ok" else b
+            ctx.count(f"dataclass-options:{kind}:{ra[0] if ra[0] == 'ok' else ra[1]}")
+            ctx.case(("dataclass-options", kind), True)
+            if ra != rb:
+                sig = "vp_compile:keyword-only-required-after-default" if ra[0] == "err" else \
+                    "vp_compile:keyword-only-required-after-default-unexpected"
+                ctx.oracle_fail(sig, f"plain class with `def __init__(self, *, a=1, b)`: compiled {str(ra)[:120]}, plain "
+                                f"{str(rb)[:120]}", {"dataclass_options": {"kind": kind}, "stage": "dataclass-options"})
+            continue
         if kind == "default_factory":
             fmt, factory = rng.choice([("arrayH-q", list), ("varlenH-list", list), ("varlenH", bytes), ("varlenHutf8", str)])
             fields = [("a", int), ("b", {"arrayH-q": list[int], "varlenH": bytes, "varlenHutf8": str}.get(
@@ -1966,6 +2027,12 @@ def type_map_queries(run: Run):
         real = "ok " + canon_fmt(r[1]) if r[0] == "ok" else "err:" + r[1]
         tok = key.split("#")[0]
         ctx.count("type_map:" + ("ok" if r[0] == "ok" else r[1]))
+        if key.endswith("#pair"):
+            # heterogeneous tuple[T, U]: today only T counts; rejecting such an annotation would be just as good, so
+            # this is recorded, compared with the model only when it is accepted, and never an oracle matter
+            ctx.count("type_map:pair-annotation:" + ("accepted" if r[0] == "ok" else "rejected"))
+            if r[0] != "ok":
+                continue
         run.ask("tmap " + tok, lambda rep: rep, real, "type_map", {"annotation": key})
         ctx.case(("tmap", key), True)
         spec_nested = {"lit:Nested": "ok l:Nested", "cs:Nested": "ok l:Nested", "cot:se:Nested": "ok l:Nested",
@@ -1988,9 +2055,6 @@ def run_all(ctx: Ctx, n_defs: int, use_model: bool, small_n: int, per_shipped: i
     packer_slots(r)
     small_scope(r, small_n)
     shipped(r, per_shipped)
-    decode_first(r, ctx.scale(30, 300))
-    inheritance(r, ctx.scale(120, 1500))
-    dataclass_options(r, ctx.scale(8, 40))
     reannotate(r, ctx.scale(48, 400))
     for i in range(n_defs):
         d = gen_defn(ctx.rng, r.formats)
@@ -1998,6 +2062,10 @@ def run_all(ctx: Ctx, n_defs: int, use_model: bool, small_n: int, per_shipped: i
         if i < 3:
             ctx.sample({"definition": defn_replay(d)})
     r.flush()
+    # the families that reproduce known findings run last
+    dataclass_options(r, ctx.scale(9, 45))
+    inheritance(r, ctx.scale(120, 1500))
+    decode_first(r, ctx.scale(30, 300))
     for outer, inner in FALLBACKS:
         ctx.count(f"nested-form-fallback:{outer}-wanted-{inner}")
     del FALLBACKS[:]
@@ -2039,10 +2107,10 @@ def search(ctx: Ctx, reason: str):
     type_map_queries(r)
     small_scope(r, 3)
     shipped(r, 10)
-    inheritance(r, 400)
     reannotate(r, 100)
-    for _ in range(1500):
+    for _ in range(800):
         checked(r, gen_defn(ctx.rng, r.formats))
+    inheritance(r, 300)
 
 
 # ---------------------------------------------------------------------------------------------------------------
